@@ -221,6 +221,11 @@ func (vc *VC) loopHead(fr *Frame, li *loopInfo, b *ssa.BasicBlock) {
 	fc := fi.C
 	invs := fc.LoopInv[li.ord]
 	pre := vc.st.clone()
+	// the state on arrival at the loop is readable in this function's clauses as oldat("loop<k>", e)
+	if vc.marks == nil {
+		vc.marks = map[string]*State{}
+	}
+	vc.marks[fmt.Sprintf("loop%d", li.ord)] = pre
 	// 1. the invariant holds on entry
 	for i, c := range invs {
 		g := vc.evalClause(c.GoName, fc.Pkg, vc.loopClauseArgs(fr, li, c, nil), vc.st, vc.entry)
